@@ -258,7 +258,7 @@ func (m *minimiser) minimise(s0 *scn.Scenario) *scn.Scenario {
 					changed = true
 					continue
 				}
-				if op := cur.PoolTasks[t].Ops[o]; op.Kind == "get" && op.N > 1 {
+				if op := cur.PoolTasks[t].Ops[o]; (op.Kind == "get" || op.Kind == "rr") && op.N > 1 {
 					for _, n := range []int{1, op.N / 2, op.N - 1} {
 						if n < 1 || n >= op.N {
 							continue
